@@ -377,6 +377,11 @@ class Executor(object):
         st.env = env
         if self.depth > self.max_inline_depth + 6:
             raise Unsupported('inline depth exceeded at %s' % fi.fid)
+        is_gen = _is_generator(node)
+        saved_yields = st.ghost.get('yields')
+        if is_gen:
+            st.ghost = dict(st.ghost)
+            st.ghost['yields'] = ()
         self.depth += 1
         self.cur_func.append(fi)
         try:
@@ -392,6 +397,18 @@ class Executor(object):
                 f = f.copy()
                 f.status = 'ret'
                 f.value = VNONE
+            if is_gen and f.status in ('ret', 'exc'):
+                # eager model of a generator: the result is the sequence of yielded values.
+                # (an exception raised by the body surfaces when the caller iterates; the
+                #  callers in the repo iterate completely, so it surfaces at the call)
+                f = f.copy()
+                if f.status == 'ret':
+                    f.value = VTuple(seq_of(list(f.ghost.get('yields', ()))))
+                f.ghost = dict(f.ghost)
+                if saved_yields is None:
+                    f.ghost.pop('yields', None)
+                else:
+                    f.ghost['yields'] = saved_yields
             elif f.status in ('brk', 'cont'):
                 raise Unsupported('break/continue escaped function')
             f.env = saved_env
@@ -797,7 +814,18 @@ class Executor(object):
         raise Unsupported('while loop at line %s' % s.lineno)
 
     def do_yield(self, node, st):
-        raise Unsupported('yield at line %s' % node.lineno)
+        if isinstance(node, ast.YieldFrom) or node.value is None:
+            raise Unsupported('yield form at line %s' % node.lineno)
+        if 'yields' not in st.ghost:
+            raise Unsupported('yield outside a generator root at line %s' % node.lineno)
+        out = []
+        for o, v in self.ev(node.value, st):
+            if o.running:
+                o = o.copy()
+                o.ghost = dict(o.ghost)
+                o.ghost['yields'] = o.ghost['yields'] + (v,)
+            out.append(o)
+        return out
 
     # ------------------------------------------------------------------ expressions
     def ev(self, e, st):
@@ -1158,7 +1186,7 @@ class Executor(object):
                 a, b = vals
                 s_case = o.assume(Is('VStr', a))
                 if s_case is not None:
-                    out.append((s_case, VStr(const(fresh_name('fmt'), STR))))
+                    out.append((s_case, VStr(self.format_percent(a, b, s_case))))
                 i_case = o.assume(And(intlike(a), intlike(b)))
                 if i_case is not None:
                     nz = i_case.assume(Not(Eq(as_int(b), intlit(0))))
@@ -1224,6 +1252,43 @@ class Executor(object):
                     pass
                 out.append((nf.raise_('TypeError', node.lineno), None))
         return self.merge(out, st)
+
+    def format_percent(self, fmt, arg, st):
+        """'literal %s text' % arg  ->  exact concatenation where the format is a literal with plain
+        %s / %d / %i / %r placeholders and the arguments are pure values; otherwise unconstrained."""
+        import re as _re
+        if not (fmt.op == 'ctor' and fmt.args[0] == 'VStr' and fmt.args[1].op == 'str'):
+            return const(fresh_name('fmt'), STR)
+        text = fmt.args[1].args[0]
+        parts = _re.split(r'(%[sdir%])', text)
+        if any('%' in p and p not in ('%s', '%d', '%i', '%r', '%%') for p in parts):
+            return const(fresh_name('fmt'), STR)
+        nph = sum(1 for p in parts if p in ('%s', '%d', '%i', '%r'))
+        if arg.op == 'ctor' and arg.args[0] == 'VTuple':
+            items = seq_literal_items(arg.args[1])
+            if items is None or len(items) != nph:
+                return const(fresh_name('fmt'), STR)
+        else:
+            if nph != 1:
+                return const(fresh_name('fmt'), STR)
+            items = [arg]
+        out = []
+        k = 0
+        for p in parts:
+            if p in ('%s', '%d', '%i', '%r'):
+                v = items[k]
+                k += 1
+                if self.may_be_ref(v, st) and not (v.op == 'ctor' and v.args[0] != 'VRef'):
+                    out.append(const(fresh_name('fmtarg'), STR))
+                elif p == '%r':
+                    out.append(py_repr(v))
+                else:
+                    out.append(py_str(v))
+            elif p == '%%':
+                out.append(strlit('%'))
+            elif p:
+                out.append(strlit(p))
+        return StrConcat(*out) if out else strlit('')
 
     def ex_JoinedStr(self, e, st):
         outs = [st]
@@ -1444,6 +1509,18 @@ class Executor(object):
 
     def ex_GeneratorExp(self, e, st):
         raise Unsupported('generator expression at line %s' % e.lineno)
+
+
+def _is_generator(fnode):
+    stack = list(fnode.body)
+    while stack:
+        n = stack.pop()
+        if isinstance(n, (ast.Yield, ast.YieldFrom)):
+            return True
+        if isinstance(n, (ast.FunctionDef, ast.Lambda, ast.ClassDef)):
+            continue
+        stack.extend(ast.iter_child_nodes(n))
+    return False
 
 
 def _to_load(node):
